@@ -57,6 +57,7 @@ type FuncContract struct {
 	LoopDec  map[int]*Clause
 	LoopMod  map[int][]Expr
 	LoopAssume map[int][]*Clause
+	LoopExit map[int][]*Clause
 	Decreases *Clause
 	GhostDefs []*Clause
 	AtReturn []*Clause
@@ -188,7 +189,7 @@ func parseContractFile(path, pkgPath string, cs *Contracts) error {
 			cur = nil
 		case "func":
 			cur = &FuncContract{Key: normFuncKey(rest), Pkg: pkgPath, LoopInv: map[int][]*Clause{}, LoopDec: map[int]*Clause{},
-				LoopMod: map[int][]Expr{}, LoopAssume: map[int][]*Clause{}, Opts: map[string]string{}, Line: rl.line, File: path, Mode: "int"}
+				LoopMod: map[int][]Expr{}, LoopAssume: map[int][]*Clause{}, LoopExit: map[int][]*Clause{}, Opts: map[string]string{}, Line: rl.line, File: path, Mode: "int"}
 			cs.Funcs[pkgPath+" "+cur.Key] = cur
 			curLemma = nil
 		case "iface":
@@ -199,7 +200,7 @@ func parseContractFile(path, pkgPath string, cs *Contracts) error {
 				return fmt.Errorf("%s:%d: %v", path, rl.line, err)
 			}
 			cur = &FuncContract{Key: "iface " + typ + "." + name, Pkg: pkgPath, IsIface: true, IfaceParams: params, IfaceResults: results,
-				LoopInv: map[int][]*Clause{}, LoopDec: map[int]*Clause{}, LoopMod: map[int][]Expr{}, LoopAssume: map[int][]*Clause{}, Opts: map[string]string{}, Line: rl.line, File: path, Mode: "int"}
+				LoopInv: map[int][]*Clause{}, LoopDec: map[int]*Clause{}, LoopMod: map[int][]Expr{}, LoopAssume: map[int][]*Clause{}, LoopExit: map[int][]*Clause{}, Opts: map[string]string{}, Line: rl.line, File: path, Mode: "int"}
 			cs.Funcs["iface "+typ+"."+name] = cur
 			curLemma = nil
 		default:
@@ -308,6 +309,13 @@ func parseContractFile(path, pkgPath string, cs *Contracts) error {
 					}
 					cl.Loop = n
 					cur.LoopInv[n] = append(cur.LoopInv[n], cl)
+				case "exitinvariant":
+					cl, err := mkClause("exitinvariant", r3)
+					if err != nil {
+						return err
+					}
+					cl.Loop = n
+					cur.LoopExit[n] = append(cur.LoopExit[n], cl)
 				case "assume":
 					cl, err := mkClause("assume", r3)
 					if err != nil {
